@@ -12,7 +12,7 @@ CONSTANTS
   WAYSEQS = {0, 1}
   HSSIGS = {"own", "bad"}
   HSRECS = {"none", "claimed1"}
-  MSGSEL = {"req", "pong", "intok", "intforeign"}
+  MSGSEL = {"req", "pong", "intok", "intforeign", "intlate"}
   DEPTH = 0
 INVARIANTS ExemptInv OutcomeInv ExactlyOne SessBound AuthInv AuthEvInv
 PROPERTY ConsumeStep
